@@ -150,11 +150,16 @@ impl<'a> TryFrom<&'a str> for Header<'a> {
     type Error = ParseError;
 
     fn try_from(input: &'a str) -> Result<Self, Self::Error> {
-        let length = match input.find(CARRIAGE_RETURN) {
+        let mut length = match input.find(CARRIAGE_RETURN) {
             Some(suffix) => min(suffix + PROTOCOL_SUFFIX.len(), input.len()),
             None if input.len() >= MAX_LENGTH => return Err(ParseError::HeaderTooLong),
             None => input.len(),
         };
+
+        // The character after the carriage return may be longer than one byte.
+        while !input.is_char_boundary(length) {
+            length += 1;
+        }
 
         parse_header(&input[..length])
     }
